@@ -8,7 +8,7 @@ S(toks) == [t |-> "str", s |-> toks]
 Atoms == {[t |-> "null"], [t |-> "bool", b |-> TRUE], [t |-> "num", a |-> "0", int |-> TRUE],
           [t |-> "num", a |-> "-12", int |-> TRUE], S(<<>>), S(<<"a">>), S(<<"QUOTE", "b", "BSLASH">>),
           S(<<"NL", "C01", "EACUTE">>), [t |-> "char", s |-> <<"x">>], [t |-> "unitvar", name |-> "Uv"],
-          [t |-> "none"], [t |-> "bytes", n |-> <<0, 255>>], [t |-> "bytes", n |-> <<>>]}
+          [t |-> "none"], [t |-> "unitstruct"], [t |-> "bytes", n |-> <<0, 255>>], [t |-> "bytes", n |-> <<>>]}
 Keys == {S(<<"k">>), S(<<"QUOTE">>), [t |-> "char", s |-> <<"c">>], [t |-> "num", a |-> "7", int |-> TRUE],
          [t |-> "unitvar", name |-> "Kv"], [t |-> "newtype", v |-> S(<<"n">>)],
          \* newtype structs around every class of key: integers (quoted like bare ones, through any number of
@@ -24,6 +24,7 @@ FV(P) == {<<>>} \cup {<<<<"f", x>>>> : x \in P} \cup {<<<<"f", x>>, <<"g2", y>>>
          \cup {<<<<"q\"t", x>>, <<"b\\s\tn\nl", x>>>> : x \in P}          \* renamed fields whose names need escaping
 Over(P) ==
     {[t |-> "seq", items |-> l] : l \in Lists(P)} \cup {[t |-> "tuple", items |-> l] : l \in Lists(P) \ {<<>>}}
+    \cup {[t |-> "tuplestruct", items |-> l] : l \in Lists(P)}
     \cup {[t |-> "map", entries |-> e] : e \in KV(P)} \cup {[t |-> "struct", fields |-> f] : f \in FV(P)}
     \cup {[t |-> "some", v |-> x] : x \in P} \cup {[t |-> "newtype", v |-> x] : x \in P}
     \cup {[t |-> "newtypevar", name |-> "Nv", v |-> x] : x \in P}
